@@ -286,6 +286,10 @@ def to_model_ops(comps, executed, with_solve=False):
                 ops.append(["connect", e[2], pid(e[2], e[3]), 99, 0]); idx.append(k)
             elif sub == "duplicate-add":
                 ops.append(["add", e[2]]); idx.append(k)
+            elif sub.startswith("put-") and len(e) >= 5:
+                # a put of a fresh two-pin object (pins u, v): a spare object of the model's heap, one per put
+                spare = len(comps) + sum(1 for o in ops if o[0] == "put")
+                ops.append(["put", spare, {"u": 0, "v": 1}.get(e[3], 99), e[2], pid(e[2], e[4])]); idx.append(k)
         elif kind == "solve" and with_solve:
             ops.append(["solve"]); idx.append(k)
         elif kind == "complete" and with_solve:
@@ -330,8 +334,11 @@ def model_compare(ctx, comps, executed, snaps, name, replay):
     ops, idx, names = to_model_ops(comps, executed)
     if not ops:
         return
-    ans = ctx.driver.ask({"op": "wiring", "pins": [len(c["pins"]) for c in comps], "ops": ops,
-                          "names": [[names[p] for p in c["pins"]] for c in comps]})
+    nput = sum(1 for o in ops if o[0] == "put")
+    for nm in ("u", "v"):
+        names.setdefault(nm, len(names))
+    ans = ctx.driver.ask({"op": "wiring", "pins": [len(c["pins"]) for c in comps] + [2] * nput, "ops": ops,
+                          "names": [[names[p] for p in c["pins"]] for c in comps] + [[names["u"], names["v"]]] * nput})
     if "steps" not in ans:
         ctx.disagreement(name, f"model: {ans}", replay)
         return
@@ -343,6 +350,7 @@ def model_compare(ctx, comps, executed, snaps, name, replay):
             break
         real = canon_real(snaps[k], comps, names)
         mod = canon_model(step["state"])
+        mod["st"] = mod["st"][:len(comps)]          # the spare objects of rejected puts are not structures of the harness
         if real != mod:
             diff = [key for key in real if real[key] != mod[key]]
             ctx.disagreement(name, f"after {executed[k]}: model and implementation differ in {diff}", replay)
